@@ -175,7 +175,7 @@ fn temp_assign(in_fn_with_local: bool, check_exports: bool) {
 #[kani::unwind(5)]
 fn vk_c09_temporary_assignment_toplevel() { temp_assign(false, false); }
 
-//@proof {'props': ['C09'], 'tier': 'quick', 'timeout': 900, 'uses': ['env_file'], 'bounds': 'global x (exported? symbolic) shadowed by a function local x; temporary-assignment scope on top', 'desc': '`x=v cmd` inside a function that has a local x: same contract; the local is what reappears'}
+//@proof {'props': ['C09'], 'tier': 'thorough', 'timeout': 2400, 'uses': ['env_file'], 'bounds': 'global x (exported? symbolic) shadowed by a function local x; temporary-assignment scope on top', 'desc': '`x=v cmd` inside a function that has a local x: same contract; the local is what reappears'}
 #[kani::proof]
 #[kani::unwind(5)]
 fn vk_c09_temporary_assignment_in_function() { temp_assign(true, false); }
@@ -230,7 +230,7 @@ fn readonly_writer(w: u8) {
     std::mem::forget(env);
 }
 
-//@proof {'props': ['C09'], 'tier': 'quick', 'timeout': 900, 'uses': ['env_file'], 'bounds': 'x readonly? in global or local scope (symbolic); writer: unset', 'desc': 'unset refuses a readonly binding (it stays, untouched) and removes / tombstones a writable one'}
+//@proof {'props': ['C09'], 'tier': 'thorough', 'timeout': 2400, 'uses': ['env_file'], 'bounds': 'x readonly? in global or local scope (symbolic); writer: unset', 'desc': 'unset refuses a readonly binding (it stays, untouched) and removes / tombstones a writable one'}
 #[kani::proof]
 #[kani::unwind(5)]
 fn vk_c09_readonly_env_unset() { readonly_writer(0); }
@@ -302,12 +302,12 @@ fn exported_set(has_local: bool) {
     std::mem::forget(env);
 }
 
-//@proof {'props': ['C09'], 'tier': 'quick', 'timeout': 900, 'uses': ['env_file'], 'bounds': 'global x exported? symbolic, inside a function without a local x', 'desc': 'iter_exported yields the global x exactly once iff it is exported, never a non-exported binding'}
+//@proof {'props': ['C09'], 'tier': 'thorough', 'timeout': 2400, 'uses': ['env_file'], 'bounds': 'global x exported? symbolic, inside a function without a local x', 'desc': 'iter_exported yields the global x exactly once iff it is exported, never a non-exported binding'}
 #[kani::proof]
 #[kani::unwind(6)]
 fn vk_c09_exported_global() { exported_set(false); }
 
-//@proof {'props': ['C09'], 'tier': 'quick', 'timeout': 900, 'uses': ['env_file'], 'bounds': 'global x exported? and function-local x exported? symbolic', 'desc': 'iter_exported never yields a name twice; an exported local wins over the global of the same name'}
+//@proof {'props': ['C09'], 'tier': 'thorough', 'timeout': 2400, 'uses': ['env_file'], 'bounds': 'global x exported? and function-local x exported? symbolic', 'desc': 'iter_exported never yields a name twice; an exported local wins over the global of the same name'}
 #[kani::proof]
 #[kani::unwind(6)]
 fn vk_c09_exported_local_over_global() { exported_set(true); }
